@@ -30,6 +30,7 @@
 import ASV.Proofs.ResultsGuards
 import ASV.Proofs.ResultsModules
 import ASV.Proofs.ResultsFile
+import ASV.Proofs.ResultsOptions
 import ASV.Props.C14
 namespace ASV.C11
 open ASV ASV.Results ASV.Results.Spec
@@ -594,6 +595,71 @@ theorem resultsFile_schema_guard (kv : List (String × J)) (n : Int)
     omega
   simp [ResultsFile.fromJson, this]
 
+/-! ### Part 6 — reuse as a function of (stored settings, current options), every option a field
+
+  Sideloader: `SideOpts` = files (as parsed), `--sideload-simple`, `--sideload-by-cds`,
+  `--sideload-size-by-cds`.  full_hmmer / cluster_hmmer: `PfamOpts` = `--fullhmmer-pfamdb-version`,
+  `--clusterhmmer-pfamdb-version`, and the newest installed version. -/
+
+/-- a run's own sideloaded results are reused by a run under the same options — whatever the
+    options are (any padding, any markers, circular or linear record) -/
+theorem sideload_own_results_reused (r : RecInfo) (o : SideOpts) (x : Sideloaded)
+    (hf : ∀ s ∈ o.fileSubs, SubAnn.valid r.origin s = true)
+    (hp : ∀ p ∈ o.fileProtos, ProtoAnn.valid r.origin p = true)
+    (hl : o.runOnRecord r none = .reuse x) :
+    o.regenerate r x.toJson = .reuse x ∧ o.runOnRecord r (some x) = .reuse x := by
+  have hl' : SideOpts.load r o = .reuse x := hl
+  have hv := SideOpts.load_valid hl' hf hp
+  refine ⟨?_, rfl⟩
+  by_cases he : o.enabled = true
+  · rw [SideOpts.regenerate_enabled he hv hl']
+    obtain ⟨y, hy, _⟩ := sideloaded_adds_same_areas r.ctx x hv (some x) (fun r' hr => by cases hr; exact ⟨rfl, rfl⟩)
+    have : y = x := by
+      have h2 := Sideloaded.fromJson_toJson r.ctx x hv
+      unfold Sideloaded.regenerate at hy
+      split at hy
+      · rename_i heq; simp [Sideloaded.toJson] at heq
+      · rw [h2] at hy; simp at hy; exact hy.symm
+    rw [this] at hy; exact hy
+  · obtain ⟨y, hy, _⟩ := sideloaded_adds_same_areas r.ctx x hv none (fun r' hr => by cases hr)
+    have : y = x := by
+      have h2 := Sideloaded.fromJson_toJson r.ctx x hv
+      unfold Sideloaded.regenerate at hy
+      split at hy
+      · rename_i heq; simp [Sideloaded.toJson] at heq
+      · rw [h2] at hy; simp at hy; exact hy.symm
+    unfold SideOpts.regenerate
+    simp only [he]
+    rw [this] at hy; exact hy
+
+/-- reused iff the stored annotations equal the ones this run would load; otherwise the run stops -/
+theorem sideload_reused_iff_same_request (r : RecInfo) (o : SideOpts) (x y : Sideloaded)
+    (hv : x.valid r.ctx = true) (he : o.enabled = true) (hl : SideOpts.load r o = .reuse y) :
+    o.regenerate r x.toJson =
+      (if sideloadOptsMayReuse o x y then .reuse x else .refuse .runtime) := by
+  rw [SideOpts.regenerate_enabled he hv hl]
+  unfold Sideloaded.regenerate
+  split
+  · rename_i heq; simp [Sideloaded.toJson] at heq
+  · rw [Sideloaded.fromJson_toJson r.ctx x hv]
+    simp only [sideloadOptsMayReuse, he]
+    by_cases h1 : y.subregions = x.subregions <;> by_cases h2 : y.protoclusters = x.protoclusters <;> simp [h1, h2]
+
+/-- PFAM results are kept iff they were computed with the version this module's own option asks for;
+    otherwise the module searches again in that version -/
+theorem pfam_results_kept_iff_own_version (m : HmmerModule) (o : PfamOpts) (res : HmmerRes) (v : String)
+    (hv : dbVersionOfPath res.database = .reuse v) :
+    hmmerRunOnRecord m o (some res) =
+      (if pfamKeepAllowed m o v then .reuse (.keep res) else .reuse (.rerun (o.wanted m))) :=
+  hmmerRun_keep_iff m o res v hv
+
+/-- the sibling module's option is never consulted -/
+theorem clusterhmmer_ignores_fullhmmer_option (o : PfamOpts) (other : String) (res : Option HmmerRes) :
+    hmmerRunOnRecord .cluster { o with fullVersion := other } res = hmmerRunOnRecord .cluster o res := rfl
+
+theorem fullhmmer_ignores_clusterhmmer_option (o : PfamOpts) (other : String) (res : Option HmmerRes) :
+    hmmerRunOnRecord .full { o with clusterVersion := other } res = hmmerRunOnRecord .full o res := rfl
+
 /-! ### non-vacuity: the invariants hold on non-trivial concrete objects -/
 
 def exHit : HMMResult :=
@@ -676,5 +742,23 @@ example : ResultsFile.fromJson exFile.toJson = .reuse exFile := resultsFile_json
 example : ResultsFile.fromJson (.obj [("version", .str "9"), ("input_file", .str "x"), ("records", .arr []),
     ("taxon", .str "bacteria"), ("schema_version", .int 4), ("schema", .int 5)]) = .refuse .value :=
   resultsFile_schema_guard _ 5 (by rfl) (by decide)
+
+-- sideloading by gene with a non-default padding on a circular record: stored, then reused;
+-- under another padding the same request is refused
+def exRec : RecInfo := ⟨"rec1", none, 10000, true, [("geneA", 9500, 9800), ("geneB", 3000, 3300)]⟩
+def exSideOpts : SideOpts := { markers := ["geneA", "nosuchgene"], padding := 500, simple := some ("rec1", 2000, 4000) }
+example : ∃ x, exSideOpts.runOnRecord exRec none = .reuse x ∧ x.subregions.length = 2
+    ∧ exSideOpts.regenerate exRec x.toJson = .reuse x :=
+  ⟨_, rfl, rfl, (sideload_own_results_reused exRec exSideOpts _ (by simp [exSideOpts]) (by simp [exSideOpts]) rfl).1⟩
+example : ∃ x, exSideOpts.runOnRecord exRec none = .reuse x
+    ∧ SideOpts.regenerate exRec { exSideOpts with padding := 20000 } x.toJson = .refuse .runtime := ⟨_, rfl, by decide +kernel⟩
+
+example : dbVersionOfPath "/data/antismash/pfam/35.0/Pfam-A.hmm" = .reuse "35.0" := by decide +kernel
+-- cluster results of version 34.0, `--clusterhmmer-pfamdb-version 34.0 --fullhmmer-pfamdb-version 35.0`: kept
+example : hmmerRunOnRecord .cluster ⟨"35.0", "34.0", "35.0"⟩ (some { exHmmer with database := "/db/pfam/34.0/Pfam-A.hmm" })
+    = .reuse (.keep { exHmmer with database := "/db/pfam/34.0/Pfam-A.hmm" }) := by decide +kernel
+-- … and searched again when the cluster option asks for 35.0 although the sibling option says 34.0
+example : hmmerRunOnRecord .cluster ⟨"34.0", "35.0", "35.0"⟩ (some { exHmmer with database := "/db/pfam/34.0/Pfam-A.hmm" })
+    = .reuse (.rerun "35.0") := by decide +kernel
 
 end ASV.C11
